@@ -29,7 +29,8 @@ F2 == <<CF(1, "f1", "V50"), CF(2, "g1", "V50"),
         SR(17, 7), SR(18, 7), ST(19, PVal(<<"a", "b">>)),
         CS(4, "AR-PACKAGES"), CN(20, "AR-PACKAGE", "p"), CS(21, "ELEMENTS"),
         CN(23, "SYSTEM-SIGNAL", "t"), CN(23, "I-SIGNAL", "r"), CS(26, "SYSTEM-SIGNAL-REF"), SR(28, 24),
-        CS(2, "AR-PACKAGES")>>
+        \* model 2: 29 AR-PACKAGES, 30 AR-PACKAGE a, 31 SN (a package moved here from model 1 meets its own name)
+        CS(2, "AR-PACKAGES"), CN(29, "AR-PACKAGE", "a")>>
 AF(p, f) == [A0 EXCEPT !.op = "AddToFile", !.p = p, !.f = f]
 RF(p, f) == [A0 EXCEPT !.op = "RemoveFromFile", !.p = p, !.f = f]
 \* F3: two files in model 1 (file ids: 1 = f1, 2 = g1 of model 2, 3 = f2); packages a (f1 only), b (both), c (both, with content)
